@@ -610,6 +610,14 @@ class Gen:
         """A sequence that first captures and then (likely) fails: the shape where state restoration matters."""
         r = self.rng
         self.features.add("capture-then-fail")
+        if r.random() < 0.25:
+            # a construct that switches the capture mode and fails before it would switch back (length pattern or body of a lenprefix)
+            self.features.add("lenprefix")
+            self.features.add("mode-switch-then-fail")
+            num = ("number", ("builtin", "d"), None, None)
+            lenp = r.choice([num, ("seq", [num, ("lit", b"zz")]), ("seq", [("capture", self.atom(), None), num]), ("readint", 1, False, False, None)])
+            body = r.choice([self.atom(), ("lit", b"zz"), ("capture", self.atom(), None), ("n", 30)])
+            return ("lenprefix", lenp, body)
         cap = self.capture_node(depth - 1, in_acc)
         return ("seq", [cap, r.choice([("lit", b"zz"), ("lit", b"q"), ("n", 30), ("not", ("n", 0)), self.lit()])])
 
